@@ -40,7 +40,7 @@ ASSUMPTIONS = [
 ]
 REACH = {t: ["versions_11", "op_truncate", "op_flip", "op_idsub", "op_seqsub", "op_random", "op_valid",
              "with_pending", "without_pending", "callback_accepted", "pending_completed_by_own_frame",
-             "pending_invalid_command", "pending_seq_wrong_id", "fresh_command_ok", "undecodable_rejected",
+             "pending_invalid_command", "pending_seq_wrong_id", "own_kind_reply_under_neighbouring_sequence", "fresh_command_ok", "undecodable_rejected",
              "unknown_id_rejected", "op_fc", "op_fc_truncate", "op_cancel_race"] for t in ("quick", "thorough")}
 SHARD_TIMEOUT = {"quick": 900, "thorough": 3600}
 
@@ -338,6 +338,12 @@ def run_shard(desc) -> Acc:
                 if wp:
                     await ensure_pending(kind)
                     await inject(bytes([pending["seq"]]) + base[1:], "seqsub", wp, kind)
+                    # a well-formed reply of the pending command's own kind, but under a neighbouring sequence number
+                    # (one ahead, one behind, far away): it answers nothing that is pending
+                    for d_ in (1, 255, rnd.choice([2, 128, 254])):
+                        await ensure_pending(kind)
+                        await inject(encode(kind, (pending["seq"] + d_) % 256, cb=False), "seqsub", wp, kind)
+                        acc.hit("own_kind_reply_under_neighbouring_sequence")
                     # the pending command's own valid reply / an invalidCommand under its sequence
                     await ensure_pending(kind)
                     await inject(encode(kind, pending["seq"], cb=False), "seqsub", wp, kind)
